@@ -592,3 +592,600 @@ Proof.
     (split; [exact E3|split; [unfold sqc, sq_countable in *; cbn [sq set_neg_done] in *; rewrite R1, S1; unfold smqg; rewrite Q1; reflexivity
                              |split; [exact E5|auto]]]).
 Qed.
+
+(* ------------------------------------------------------------------ conservation, on every history *)
+Definition G1b (s : sys) : Prop := flags1 (fst s) /\ nolib (fst s) /\ fresh s /\ conserved_c s.
+
+Lemma filter_cq_tail q e tl : forallb (fun e => negb (countable (q_owner e))) tl = true ->
+  map q_gid (filter cq (q ++ e :: tl)) = map q_gid (filter cq q) ++ (if cq e then [q_gid e] else []).
+Proof.
+  intros T. rewrite filter_app. cbn [filter]. rewrite (filter_none cq tl T). rewrite map_app.
+  destruct (cq e); reflexivity.
+Qed.
+Lemma nolib_tail q e tl : Forall (fun e => q_owner e <> OLib) q -> q_owner e <> OLib ->
+  forallb (fun e => negb (countable (q_owner e))) tl = true -> Forall (fun e => q_owner e <> OLib) (q ++ e :: tl).
+Proof.
+  intros F H T. apply Forall_app. split; [exact F|]. constructor; [exact H|].
+  induction tl as [|a tl IH]; [constructor|]. cbn in T. apply andb_true_iff in T as [T1 T2].
+  constructor; [|apply IH, T2]. destruct (q_owner a); cbn in T1; try discriminate.
+Qed.
+Lemma fresh_mono l a b : Forall (fun x => x < a) l -> a <= b -> Forall (fun x : Z => x < b) l.
+Proof. intros F H. eapply Forall_impl; [|exact F]. cbn. intros; lia. Qed.
+
+(* appending one element with _send_raw: effect on the counted queue *)
+Lemma sqc_send st q g o t rs tl r n :
+  q = sq st ++ mk_sqe g o t 0 rs :: tl ->
+  forallb (fun e => negb (countable (q_owner e))) tl = true ->
+  sqc (set_next_gid (set_r_sent (set_sq st q) r) n) = sqc st ++ (if countable o then [g] else []).
+Proof.
+  intros E T. subst q. unfold sqc, sq_countable. cbn [sq set_next_gid set_r_sent set_sq]. fold cq.
+  rewrite filter_cq_tail by exact T. reflexivity.
+Qed.
+
+Lemma G1b_send bt s t : G1b s -> G1b (sys_step bt s (ASend t)).
+Proof.
+  destruct s as [st g]. unfold sys_step, step, user_send; cbn [fst snd].
+  intros H.
+  destruct (connected st && neg_done st) eqn:Ecn; [|exact H].
+  destruct H as ((F1 & F2) & (N1 & N2) & Fr & Co). unfold fresh in Fr. cbn [fst snd] in *.
+  abs_send. cbn [fst snd]. gn. gsil. cbn [eff_owner] in Eq. cbn in Hn.
+  split; [|split; [|split]]; cbn [fst snd].
+  - exact (conj F1 F2).
+  - split; [|exact N2]. cbn. subst q. apply nolib_tail; auto. discriminate.
+  - unfold fresh. cbn. apply Forall_app. split; [eapply fresh_mono; [exact Fr|cbn; lia]|].
+    constructor; [lia|constructor].
+  - intros x. destruct (Co x) as [Cx Cy]. cbn [fst snd] in Cx, Cy |- *.
+    rewrite (sqc_send _ _ _ _ _ _ _ r n Eq Tl). unfold smqg in *. cbn.
+    rewrite !cnt_app, cnt_cons, cnt_nil.
+    unfold sqc, sq_countable, smqg in *.
+    destruct (Z.eq_dec (next_gid st) x); [|lia].
+    subst x. rewrite (cnt_fresh _ _ _ Fr) in * by lia. lia.
+Qed.
+
+Lemma G1b_disconnect st g : G1b (st, g) -> G1b (fst (disconnect st), gfold g (snd (disconnect st))).
+Proof.
+  intros H. unfold disconnect. destruct (negb (connected st)) eqn:Ec; [exact H|].
+  destruct H as ((F1 & F2) & (N1 & N2) & Fr & Co). cbn [fst snd] in *.
+  cbn [fst snd]. gn. cbn [gapply]. cbn [can_resume set_previd set_neg_done set_connected].
+  destruct (can_resume st); (split; [|split; [|split]]); cbn [fst snd].
+  all: try exact (conj N1 N2); try exact Fr; try exact Co.
+  all: cbn; (split; [intros X; discriminate X | intros _; reflexivity]).
+Qed.
+
+Lemma cnt_filter_split (f : sqe -> bool) l x :
+  cnt (map q_gid l) x = (cnt (map q_gid (filter (fun e => negb (f e)) l)) x + cnt (map q_gid (filter f l)) x)%nat.
+Proof.
+  induction l as [|e l IH]; [reflexivity|]. cbn [filter map]. destruct (f e); cbn [negb map]; rewrite !cnt_cons, IH; lia.
+Qed.
+
+Lemma G1b_connect st g : G1b (st, g) -> G1b (fst (do_connect st), gfold g (snd (do_connect st))).
+Proof.
+  intros H. unfold do_connect. destruct (connected st) eqn:Ec; [exact H|].
+  destruct H as ((F1 & F2) & (N1 & N2) & Fr & Co). cbn [fst snd] in *.
+  cbn [fst snd]. gn. cbn [gapply].
+  split; [|split; [|split]]; cbn [fst snd].
+  - unfold flags1; cbn. split; [intros _ _; rewrite (F2 Ec); auto|intros X; discriminate X].
+  - split; [constructor|exact N2].
+  - exact Fr.
+  - intros x. destruct (Co x) as [Cx Cy]. cbn [fst snd] in Cx, Cy. split; [|exact Cy].
+    unfold sqc, sq_countable, smqg in *. cbn. rewrite !cnt_app.
+    fold cq in *. rewrite (cnt_filter_split q_resend (filter cq (sq st)) x) in Cx. rewrite cnt_nil. lia.
+Qed.
+
+Lemma G1b_wloop st g sched :
+  G1b (st, g) ->
+  let r := wloop (sq st) sched st in
+  G1b (fst (fst (fst r)), gfold g (snd (fst (fst r)))).
+Proof.
+  intros ((F1 & F2) & (N1 & N2) & Fr & Co). cbn [fst snd] in *. cbn zeta.
+  destruct (wloop_g1 (sq st) sched st g) as (W1 & W2 & W3 & W4 & W5 & _ & W7 & W8).
+  destruct (wloop_frame (sq st) sched st) as (q' & m & n & E & _).
+  destruct (wloop (sq st) sched st) as [[[st1 o] err] sl]. cbn [fst snd] in *.
+  split; [|split; [|split]]; cbn [fst snd].
+  - rewrite E. exact (conj F1 F2).
+  - split; [apply W7, N1|apply W8; [exact N1|exact N2]].
+  - unfold fresh in *. cbn [fst snd] in *. rewrite W2, E. exact Fr.
+  - intros x. destruct (Co x) as [Cx Cy]. cbn [fst snd] in *. rewrite W2, W3, W4, W5. split; [|exact Cy].
+    specialize (W1 x). unfold sqc, sq_countable in *. fold cq in *. lia.
+Qed.
+
+Lemma G1b_write st g sched :
+  G1b (st, g) ->
+  let r := write_phase st sched in
+  G1b (fst (fst r), gfold g (snd (fst r))).
+Proof.
+  intros H. cbn zeta. unfold write_phase. destruct (connected st); [|exact H].
+  pose proof (G1b_wloop st g sched H) as H1. cbn zeta in H1.
+  destruct (wloop (sq st) sched st) as [[[st1 o] err] sl]. cbn [fst snd] in *.
+  destruct err; [|exact H1].
+  pose proof (G1b_disconnect _ _ H1) as H2. destruct (disconnect st1) as [st2 o2]. cbn [fst snd] in *.
+  rewrite gfold_app. exact H2.
+Qed.
+
+(* _conn_sm_handle_stanza *)
+Lemma G1b_post st g it :
+  G1b (st, g) -> connected st = true ->
+  let r := if sm_enabled st then sm_handle st it else (st, []) in
+  G1b (fst r, gfold (gfold g (mark_in it)) (snd r)).
+Proof.
+  intros H C. cbn zeta.
+  assert (Hm : G1b (st, gfold g (mark_in it))).
+  { destruct it as [| | |smo|e]; [| | | |split_smel e]; cbn; try exact H; destruct (g_active g); exact H. }
+  revert Hm. generalize (gfold g (mark_in it)). clear H g. intros g H.
+  destruct (sm_enabled st) eqn:Es; [|exact H].
+  destruct H as ((F1 & F2) & (N1 & N2) & Fr & Co). unfold fresh in Fr. cbn [fst snd] in *.
+  destruct it as [| | |smo|e]; [| | | |split_smel e]; unfold sm_handle.
+  all: try (cbn [fst snd]; gn; exact (conj (conj F1 F2) (conj (conj N1 N2) (conj Fr Co)))).
+  - (* <r/> *)
+    unfold send_lib. rewrite C. abs_send. cbn [fst snd]. gn. gsil. cbn [gapply eff_owner countable] in *. cbn in Hn.
+    split; [|split; [|split]]; cbn [fst snd].
+    + exact (conj F1 F2).
+    + split; [|exact N2]. cbn. subst q. apply nolib_tail; auto. discriminate.
+    + unfold fresh. cbn. eapply fresh_mono; [exact Fr|lia].
+    + intros x. destruct (Co x) as [Cx Cy]. cbn [fst snd] in Cx, Cy |- *.
+      rewrite (sqc_send _ _ _ _ _ _ _ r n Eq Tl). cbn. rewrite app_nil_r. exact (conj Cx Cy).
+  - (* <a/> with an unparsable h *)
+    cbn [fst snd]. gn. cbn [gapply].
+    split; [|split; [|split]]; cbn [fst snd].
+    + exact (conj F1 F2).
+    + split; [exact N1|constructor].
+    + exact Fr.
+    + intros x. destruct (Co x) as [Cx Cy]. cbn [fst snd] in Cx, Cy |- *. split; [|exact Cy].
+      unfold sqc, sq_countable, smqg in *. cbn. rewrite ?cnt_app, ?cnt_nil. lia.
+  - (* <a h> *)
+    pose proof (cleanup_split (smq st) h) as Sp. destruct (cleanup (smq st) h) as [kept rel].
+    cbn [fst snd]. gn. cbn [gapply].
+    split; [|split; [|split]]; cbn [fst snd].
+    + exact (conj F1 F2).
+    + split; [exact N1|]. cbn. rewrite Sp in N2. apply Forall_app in N2. apply N2.
+    + exact Fr.
+    + intros x. destruct (Co x) as [Cx Cy]. cbn [fst snd] in Cx, Cy |- *. split; [|exact Cy].
+      unfold sqc, sq_countable, smqg in *. cbn. rewrite Sp in Cx. rewrite map_app, !cnt_app in *. lia.
+Qed.
+
+(* ------------------------------------------------------------------ G1b only looks at a few fields *)
+Definition view1 (st : state) := (connected st, h_feat st, sm_enabled st, h_bind st, h_sm st, sq st, smq st, next_gid st).
+Definition gview1 (g : ghost) := (g_subm g, g_done g, g_plain g, g_disc_fresh g, g_disc_resent g).
+
+Lemma G1b_view st st' g g' : view1 st = view1 st' -> gview1 g = gview1 g' -> G1b (st, g) -> G1b (st', g').
+Proof.
+  unfold view1, gview1. intros V W. inversion V as [[V1 V2 V3 V4 V5 V6 V7 V8]]. inversion W as [[W1 W2 W3 W4 W5]].
+  unfold G1b, flags1, nolib, fresh, conserved_c, sqc, sq_countable, smqg. cbn [fst snd].
+  rewrite V1, V2, V3, V4, V5, V6, V7, V8, W1, W2, W3, W4, W5. auto.
+Qed.
+
+(* flag changes once the features have been seen *)
+Lemma G1b_flags st g a b c :
+  G1b (st, g) -> connected st = true -> h_feat st = false ->
+  G1b (set_h_sm (set_h_bind (set_sm_enabled st a) b) c, g).
+Proof.
+  intros ((F1 & F2) & N & Fr & Co) C Hf. split; [|split; [exact N|split; [exact Fr|exact Co]]].
+  unfold flags1. cbn. rewrite C, Hf. split; [intros _ X; discriminate X|intros X; discriminate X].
+Qed.
+
+(* a non-countable element (and possibly an <r/>) appended by _send_raw *)
+Lemma G1b_append st g q e tl r n :
+  G1b (st, g) -> q = sq st ++ e :: tl -> q_owner e = OSm ->
+  forallb (fun e => negb (countable (q_owner e))) tl = true -> next_gid st <= n ->
+  G1b (set_next_gid (set_r_sent (set_sq st q) r) n, g).
+Proof.
+  intros ((F1 & F2) & (N1 & N2) & Fr & Co) Eq Eo Tl Hn. unfold fresh in Fr. cbn [fst snd] in *.
+  split; [exact (conj F1 F2)|split; [|split]].
+  - split; [|exact N2]. cbn. subst q. apply nolib_tail; auto. rewrite Eo. discriminate.
+  - unfold fresh. cbn. eapply fresh_mono; [exact Fr|exact Hn].
+  - intros x. destruct (Co x) as [Cx Cy]. cbn [fst snd] in Cx, Cy |- *. split; [|exact Cy].
+    unfold sqc, sq_countable, smqg in *. cbn [sq smq set_next_gid set_r_sent set_sq]. fold cq in *. subst q.
+    rewrite filter_cq_tail by exact Tl. unfold cq at 2. rewrite Eo. cbn. rewrite app_nil_r. exact Cx.
+Qed.
+
+(* G1b after send_lib of a non-countable element, whatever the invisible fields are *)
+Ltac send_sm H C :=
+  unfold send_lib; cbn [connected set_h_bind set_h_sm set_resume set_bind_saved set_h_feat set_sm_support set_bound
+                        set_r_sent set_sent_nr set_handled_nr set_sm_bound set_previd set_sm_id set_sm_enabled set_smq
+                        set_dont_req set_can_resume set_neg_done]; rewrite C; abs_send; cbn [fst snd].
+
+Lemma G1b_resend st g :
+  G1b (st, g) -> connected st = true ->
+  G1b (fst (resend (smq st) st), g) /\ forallb silent (snd (resend (smq st) st)) = true /\
+  connected (fst (resend (smq st) st)) = true /\ h_feat (fst (resend (smq st) st)) = h_feat st.
+Proof.
+  intros ((F1 & F2) & (N1 & N2) & Fr & Co) C. unfold fresh in Fr. cbn [fst snd] in *.
+  destruct (resend_g1 (smq st) st C N2) as (R1 & R2 & R3).
+  destruct (resend_frame (smq st) st) as (q & r1 & n & E & Sil).
+  destruct (resend (smq st) st) as [st2 o2]. cbn [fst snd] in *.
+  split; [|split; [exact Sil|split; [rewrite E; exact C|rewrite E; reflexivity]]].
+  split; [rewrite E; exact (conj F1 F2)|split; [|split]].
+  - split; [apply R2, N1|]. rewrite E. cbn. destruct (smq st); [constructor|constructor].
+  - unfold fresh. cbn [fst snd]. eapply fresh_mono; [exact Fr|exact R3].
+  - intros x. destruct (Co x) as [Cx Cy]. cbn [fst snd] in Cx, Cy |- *. split; [|exact Cy].
+    rewrite R1. unfold smqg in *. rewrite cnt_app.
+    assert (Es : smq st2 = []) by (rewrite E; cbn; destruct (smq st); reflexivity).
+    rewrite Es. cbn [map]. rewrite cnt_nil. lia.
+Qed.
+
+Lemma G1b_release st g kept rel :
+  G1b (st, g) -> smq st = rel ++ kept ->
+  G1b (set_smq st kept, gapply g (GRelease (map s_gid rel))).
+Proof.
+  intros ((F1 & F2) & (N1 & N2) & Fr & Co) Sp. cbn [fst snd] in *.
+  split; [exact (conj F1 F2)|split; [|split]].
+  - split; [exact N1|]. cbn. rewrite Sp in N2. apply Forall_app in N2. apply N2.
+  - exact Fr.
+  - intros x. destruct (Co x) as [Cx Cy]. cbn [fst snd] in Cx, Cy |- *. split; [|exact Cy].
+    unfold sqc, sq_countable, smqg in *. cbn. rewrite Sp in Cx. rewrite map_app, !cnt_app in *. lia.
+Qed.
+
+Lemma flags1_hfeat st : flags1 st -> connected st = true -> (h_bind st = true \/ h_sm st = true) -> h_feat st = false.
+Proof.
+  intros (F1 & _) C H. destruct (h_feat st) eqn:E; [|reflexivity].
+  destruct (F1 C eq_refl) as (_ & A & B). destruct H; congruence.
+Qed.
+
+(* one send_lib of a non-countable element on top of a state that differs from `st0` only in invisible fields
+   and flags (with the features already seen) *)
+Lemma G1b_lib st0 g st o text a b c :
+  G1b (st0, g) -> connected st0 = true -> h_feat st0 = false ->
+  view1 st = view1 (set_h_sm (set_h_bind (set_sm_enabled st0 a) b) c) ->
+  eff_owner st o = OSm ->
+  let r := send_lib st o text in
+  G1b (fst r, gfold g (snd r)) /\
+  connected (fst r) = true /\ h_feat (fst r) = false /\ sm_enabled (fst r) = a /\ h_bind (fst r) = b /\
+  h_sm (fst r) = c /\ smq (fst r) = smq st0 /\ (forall g', gfold g' (snd r) = g').
+Proof.
+  intros H C Hf V Eo. cbn zeta.
+  assert (H1 : G1b (st, g)).
+  { eapply G1b_view; [symmetry; exact V|reflexivity|]. apply G1b_flags; assumption. }
+  unfold view1 in V. cbn in V. inversion V as [[V1 V2 V3 V4 V5 V6 V7 V8]].
+  unfold send_lib. rewrite V1, C. abs_send. cbn [fst snd]. rewrite Eo in *. cbn [countable]. gn. gsil. cbn in Hn.
+  split.
+  - eapply G1b_append with (st := set_next_gid st (next_gid st + 1)); try eassumption; try reflexivity.
+    destruct H1 as (F & N & Fr & Co). split; [exact F|split; [exact N|split; [|exact Co]]].
+    unfold fresh in *. cbn [fst snd] in *. eapply fresh_mono; [exact Fr|cbn; lia].
+  - cbn. rewrite V1, V2, V3, V4, V5, V7, C, Hf. repeat split; try reflexivity.
+    intros g'. cbn. apply gfold_silent, S.
+Qed.
+
+Definition fire_ok (st : state) (g : ghost) (r : state * list out) : Prop :=
+  G1b (fst r, gfold g (snd r)) /\ connected (fst r) = true.
+
+Lemma neg_success_frame st :
+  connected (fst (neg_success st)) = connected st /\ h_feat (fst (neg_success st)) = h_feat st.
+Proof. unfold neg_success. destruct (neg_done st); split; reflexivity. Qed.
+
+Lemma G1b_neg_success st g : G1b (st, g) -> G1b (fst (neg_success st), gfold g (snd (neg_success st))).
+Proof.
+  intros H. unfold neg_success. destruct (neg_done st); [exact H|]. cbn [fst snd]. gn.
+  eapply G1b_view; [| |exact H]; reflexivity.
+Qed.
+
+Lemma G1b_features bt st g smo :
+  G1b (st, g) -> connected st = true -> h_feat st = true -> fire_ok st g (handle_features bt st smo).
+Proof.
+  intros H C Hf. destruct H as ((F1 & F2) & N & Fr & Co). cbn [fst snd] in *.
+  destruct (F1 C Hf) as (En & Hb & Hs).
+  assert (H0 : G1b (set_h_feat st false, g)).
+  { split; [|split; [exact N|split; [exact Fr|exact Co]]]. unfold flags1. cbn. rewrite C. split; [intros _ X; discriminate X|intros X; discriminate X]. }
+  assert (C0 : connected (set_h_feat st false) = true) by exact C.
+  unfold handle_features, fire_ok.
+  set (st1 := if smo then set_sm_support (set_h_feat st false) true else set_h_feat st false).
+  assert (V1 : view1 st1 = view1 (set_h_feat st false)) by (unfold st1; destruct smo; reflexivity).
+  destruct (previd st1) as [pv|] eqn:Ep; [destruct (sm_support st1 && can_resume st1 && sm_bound st1)|].
+  - (* <resume/> *)
+    match goal with |- context[send_lib ?s ?o ?t] =>
+      destruct (G1b_lib (set_h_feat st false) g s o t false false false H0 C0 eq_refl) as (A & B1 & B2 & B3 & B4 & B5 & B6 & B7) end.
+    { transitivity (view1 st1); [reflexivity|]. rewrite V1. unfold view1. cbn. rewrite En, Hb, Hs. reflexivity. }
+    { reflexivity. }
+    match goal with |- context[send_lib ?s ?o ?t] => destruct (send_lib s o t) as [st2 o2] end.
+    cbn [fst snd] in *. gn. rewrite B7 in *. split; [|cbn; exact B1].
+    eapply G1b_view with (st := set_h_sm (set_h_bind (set_sm_enabled st2 false) false) true) (g := g); [| |apply G1b_flags; assumption].
+    + unfold view1. cbn. rewrite B3, B4. reflexivity.
+    + reflexivity.
+  - (* bind *)
+    unfold do_bind.
+    match goal with |- context[send_lib ?s ?o ?t] =>
+      destruct (G1b_lib (set_h_feat st false) g s o t false true false H0 C0 eq_refl) as (A & B1 & B2 & B3 & B4 & B5 & B6 & B7) end.
+    { unfold st1; destruct smo; unfold view1; cbn; rewrite En, Hs; reflexivity. }
+    { cbn. unfold st1. destruct smo; cbn; rewrite En; reflexivity. }
+    match goal with |- context[send_lib ?s ?o ?t] => destruct (send_lib s o t) as [st2 o2] end.
+    cbn [fst snd] in *. split; [exact A|exact B1].
+  - unfold do_bind.
+    match goal with |- context[send_lib ?s ?o ?t] =>
+      destruct (G1b_lib (set_h_feat st false) g s o t false true false H0 C0 eq_refl) as (A & B1 & B2 & B3 & B4 & B5 & B6 & B7) end.
+    { unfold st1; destruct smo; unfold view1; cbn; rewrite En, Hs; reflexivity. }
+    { cbn. unfold st1. destruct smo; cbn; rewrite En; reflexivity. }
+    match goal with |- context[send_lib ?s ?o ?t] => destruct (send_lib s o t) as [st2 o2] end.
+    cbn [fst snd] in *. split; [exact A|exact B1].
+Qed.
+
+Lemma G1b_sm_enable st g :
+  G1b (st, g) -> connected st = true -> h_feat st = false -> fire_ok st g (sm_enable st).
+Proof.
+  intros H C Hf. unfold sm_enable, fire_ok.
+  match goal with |- context[send_lib ?s ?o ?t] =>
+    destruct (G1b_lib st g s o t (sm_enabled st) (h_bind st) true H C Hf) as (A & B1 & B2 & B3 & B4 & B5 & B6 & B7) end.
+  { reflexivity. } { reflexivity. }
+  match goal with |- context[send_lib ?s ?o ?t] => destruct (send_lib s o t) as [st2 o2] end.
+  cbn [fst snd] in *. gn. rewrite B7 in *. cbn [gapply]. split; [|cbn; exact B1].
+  eapply G1b_view with (st := set_h_sm (set_h_bind (set_sm_enabled st2 true) (h_bind st2)) (h_sm st2)) (g := g);
+    [| |apply G1b_flags; assumption].
+  - unfold view1. cbn. reflexivity.
+  - reflexivity.
+Qed.
+
+Lemma G1b_bind st g :
+  G1b (st, g) -> connected st = true -> h_bind st = true -> fire_ok st g (handle_bind st).
+Proof.
+  intros H C Hb.
+  assert (Hf : h_feat st = false) by (apply flags1_hfeat; [apply H|exact C|left; exact Hb]).
+  unfold handle_bind.
+  assert (H0 : G1b (set_bound (set_h_bind st false) true, g)).
+  { eapply G1b_view with (st := set_h_sm (set_h_bind (set_sm_enabled st (sm_enabled st)) false) (h_sm st)) (g := g);
+      [reflexivity|reflexivity|apply G1b_flags; assumption]. }
+  destruct (sm_support (set_bound (set_h_bind st false) true)).
+  - apply G1b_sm_enable; [exact H0|exact C|exact Hf].
+  - split; [apply G1b_neg_success, H0|]. unfold neg_success. destruct (neg_done _); exact C.
+Qed.
+
+Lemma G1b_sm_err st g : G1b (st, g) -> connected st = true -> h_feat st = false -> fire_ok st g (sm_err st).
+Proof.
+  intros H C Hf. unfold sm_err, fire_ok. cbn [fst snd]. gn. split; [|exact C].
+  eapply G1b_view with (st := set_h_sm (set_h_bind (set_sm_enabled st false) (h_bind st)) (h_sm st)) (g := g);
+    [reflexivity|reflexivity|apply G1b_flags; assumption].
+Qed.
+
+Lemma gview1_quiet g m :
+  match m with GSubmit _ | GDone _ _ | GRelease _ | GDiscard _ _ => False | _ => True end ->
+  gview1 (gapply g m) = gview1 g.
+Proof. destruct m; intros X; try contradiction; cbn; try reflexivity; destruct (g_active g); reflexivity. Qed.
+
+Lemma G1b_gquiet st g m :
+  match m with GSubmit _ | GDone _ _ | GRelease _ | GDiscard _ _ => False | _ => True end ->
+  G1b (st, g) -> G1b (st, gapply g m).
+Proof. intros X H. eapply G1b_view; [reflexivity|symmetry; apply gview1_quiet, X|exact H]. Qed.
+
+Lemma G1b_failed_tail bt (dummy : state) s2 g rl (resuming : bool) :
+  G1b (s2, gapply g (GRelease (map s_gid rl))) -> connected s2 = true -> h_feat s2 = false -> sm_enabled s2 = false ->
+  let r := if bind_saved s2 then do_bind bt (reset_sm_state s2)
+           else if resuming then xmpp_disconnect (reset_sm_state s2) else neg_success (reset_sm_state s2) in
+  fire_ok dummy g (set_sm_enabled (fst r) false,
+                   OG (GRelease (map s_gid rl)) :: OG GFailed :: snd r ++ [cb (fst r); OG GSmOff]).
+Proof.
+  intros H2 C2 Hf2 En2. cbn zeta.
+  assert (H3 : G1b (reset_sm_state s2, gapply (gapply g (GRelease (map s_gid rl))) GFailed))
+    by (apply G1b_gquiet; [exact I|]; eapply G1b_view; [| |exact H2]; reflexivity).
+  assert (C3 : connected (reset_sm_state s2) = true) by exact C2.
+  assert (Hf3 : h_feat (reset_sm_state s2) = false) by exact Hf2.
+  match goal with |- context[fst ?x] =>
+    assert (exists s4 o4, x = (s4, o4) /\ G1b (s4, gfold (gapply (gapply g (GRelease (map s_gid rl))) GFailed) o4) /\
+                          connected s4 = true /\ h_feat s4 = false) as (s4 & o4 & Ex & H4 & C4 & Hf4) end.
+  { destruct (bind_saved s2); [|destruct resuming].
+    - unfold do_bind.
+      match goal with |- context[send_lib ?s ?o ?t] =>
+        destruct (G1b_lib (reset_sm_state s2) _ s o t false true (h_sm s2) H3 C3 Hf3) as (A & B1 & B2 & B3 & B4 & B5 & B6 & B7);
+        [unfold view1; cbn; rewrite En2; reflexivity | cbn; rewrite En2; reflexivity|] end.
+      match goal with |- context[send_lib ?s ?o ?t] => destruct (send_lib s o t) as [s5 o5] end.
+      cbn [fst snd] in *. exists s5, o5. auto.
+    - unfold xmpp_disconnect.
+      match goal with |- context[send_lib ?s ?o ?t] =>
+        destruct (G1b_lib (reset_sm_state s2) _ s o t false (h_bind s2) (h_sm s2) H3 C3 Hf3) as (A & B1 & B2 & B3 & B4 & B5 & B6 & B7);
+        [unfold view1; cbn; rewrite En2; reflexivity | reflexivity|] end.
+      match goal with |- context[send_lib ?s ?o ?t] => destruct (send_lib s o t) as [s5 o5] end.
+      cbn [fst snd] in *. exists s5, o5. auto.
+    - pose proof (G1b_neg_success _ _ H3) as R5.
+      assert (C5 : connected (fst (neg_success (reset_sm_state s2))) = true /\ h_feat (fst (neg_success (reset_sm_state s2))) = false)
+        by (destruct (neg_success_frame (reset_sm_state s2)) as [X Y]; rewrite X, Y; split; assumption).
+      destruct (neg_success (reset_sm_state s2)) as [s5 o5]. cbn [fst snd] in *. exists s5, o5. intuition. }
+  rewrite Ex. unfold fire_ok. cbn [fst snd]. gn. split; [|exact C4].
+  apply G1b_gquiet; [exact I|].
+  eapply G1b_view with (st := set_h_sm (set_h_bind (set_sm_enabled s4 false) (h_bind s4)) (h_sm s4));
+    [reflexivity|reflexivity|apply G1b_flags; assumption].
+Qed.
+
+Lemma G1b_handle_sm bt st g el :
+  G1b (st, g) -> connected st = true -> h_sm st = true -> fire_ok st g (handle_sm bt st el).
+Proof.
+  intros H C Hs.
+  assert (Hf : h_feat st = false) by (apply flags1_hfeat; [apply H|exact C|right; exact Hs]).
+  assert (H0 : G1b (set_h_sm st false, g)).
+  { eapply G1b_view with (st := set_h_sm (set_h_bind (set_sm_enabled st (sm_enabled st)) (h_bind st)) false) (g := g);
+      [reflexivity|reflexivity|apply G1b_flags; assumption]. }
+  unfold handle_sm. set (st0 := set_h_sm st false) in *.
+  assert (C0 : connected st0 = true) by exact C. assert (Hf0 : h_feat st0 = false) by exact Hf.
+  destruct el as [|a|ra id|pv h|c h|].
+  - (* <r/> *) unfold fire_ok. cbn [fst snd]. gn. split; [|exact C].
+    apply G1b_gquiet; [exact I|]. apply (G1b_sm_err st0 g H0 C0 Hf0).
+  - unfold fire_ok. cbn [fst snd]. gn. split; [|exact C].
+    apply G1b_gquiet; [exact I|]. apply (G1b_sm_err st0 g H0 C0 Hf0).
+  - (* <enabled/> *)
+    destruct (negb (sm_enabled st0)); [apply (G1b_sm_err st0 g H0 C0 Hf0)|].
+    set (st1 := set_handled_nr st0 0).
+    assert (H1 : G1b (st1, gapply g GEnabledSeen)).
+    { apply G1b_gquiet; [exact I|]. eapply G1b_view; [| |exact H0]; reflexivity. }
+    match goal with |- context[match ?x with Some _ => _ | None => _ end] => destruct x as [st2|] eqn:Ea end.
+    + assert (VV : view1 st2 = view1 st1 /\ connected st2 = true /\ h_feat st2 = false).
+      { destruct ra; [destruct id; [|discriminate Ea]|]; inversion Ea; repeat split; assumption. }
+      destruct VV as (V & C2 & Hf2).
+      assert (H2 : G1b (st2, gapply (gapply g GEnabledSeen) GEnabled)).
+      { apply G1b_gquiet; [exact I|]. eapply G1b_view; [symmetry; exact V|reflexivity|exact H1]. }
+      destruct (G1b_resend st2 _ H2 C2) as (R1 & R2 & R3 & R4).
+      destruct (resend (smq st2) st2) as [st3 o3]. cbn [fst snd] in *.
+      pose proof (G1b_neg_success st3 _ R1) as R5.
+      assert (C5 : connected (fst (neg_success st3)) = true) by (rewrite (proj1 (neg_success_frame st3)); exact R3).
+      destruct (neg_success st3) as [st4 o4]. cbn [fst snd] in *.
+      unfold fire_ok. cbn [fst snd]. gn. rewrite (gfold_silent _ o3 R2). split; [exact R5|exact C5].
+    + destruct (G1b_sm_err st1 _ H1 C0 Hf0) as (A & B). unfold fire_ok.
+      destruct (sm_err st1) as [st2 o2]. cbn [fst snd] in *. gn. split; [exact A|exact B].
+  - (* <resumed/> *)
+    destruct pv as [p|]; [|apply (G1b_sm_err st0 g H0 C0 Hf0)].
+    destruct (previd st0) as [mine|]; [|apply (G1b_sm_err st0 g H0 C0 Hf0)].
+    destruct (list_eqb p mine); [|apply (G1b_sm_err st0 g H0 C0 Hf0)].
+    destruct h as [hv|]; [|apply (G1b_sm_err st0 g H0 C0 Hf0)].
+    match goal with |- context[cleanup (smq ?s) hv] => set (st1 := s) end.
+    assert (H1 : G1b (st1, gapply g (GResumed hv))).
+    { apply G1b_gquiet; [exact I|].
+      eapply G1b_view with (st := set_h_sm (set_h_bind (set_sm_enabled st0 true) (h_bind st0)) (h_sm st0)) (g := g);
+        [reflexivity|reflexivity|apply G1b_flags; assumption]. }
+    pose proof (cleanup_split (smq st1) hv) as Sp. destruct (cleanup (smq st1) hv) as [kept rel].
+    pose proof (G1b_release st1 _ kept rel H1 Sp) as H2.
+    assert (C2 : connected (set_smq st1 kept) = true) by exact C.
+    destruct (G1b_resend (set_smq st1 kept) _ H2 C2) as (R1 & R2 & R3 & R4).
+    cbn [smq set_smq] in *.
+    destruct (resend kept (set_smq st1 kept)) as [st3 o3]. cbn [fst snd] in *.
+    pose proof (G1b_neg_success st3 _ R1) as R5.
+    assert (C5 : connected (fst (neg_success st3)) = true) by (rewrite (proj1 (neg_success_frame st3)); exact R3).
+    destruct (neg_success st3) as [st4 o4]. cbn [fst snd] in *.
+    unfold fire_ok. cbn [fst snd]. gn. rewrite (gfold_silent _ o3 R2). split; [exact R5|exact C5].
+  - (* <failed/> *)
+    set (st1 := set_sm_enabled st0 false).
+    assert (H1 : G1b (st1, g)).
+    { eapply G1b_view with (st := set_h_sm (set_h_bind (set_sm_enabled st0 false) (h_bind st0)) (h_sm st0)) (g := g);
+        [reflexivity|reflexivity|apply G1b_flags; assumption]. }
+    assert (C1 : connected st1 = true) by exact C. assert (Hf1 : h_feat st1 = false) by exact Hf.
+    destruct c; [apply (G1b_sm_err st1 g H1 C1 Hf1)| | |]; cbv iota.
+    + destruct (resume st1).
+      * pose proof (cleanup_split (smq st1) (match h with Some v => v | None => 0 end)) as Sp. cbv zeta.
+        destruct (cleanup (smq st1) (match h with Some v => v | None => 0 end)) as [k rl].
+        pose proof (G1b_failed_tail bt st (set_smq st1 k) g rl (resume st0)
+                      (G1b_release st1 g k rl H1 Sp) C Hf eq_refl) as T. cbn zeta in T.
+        match type of T with context[fst ?x] => destruct x as [s5 o5] end. exact T.
+      * assert (H2 : G1b (st1, gapply g (GRelease (map s_gid [])))).
+        { eapply G1b_view; [reflexivity| |exact H1]. cbn. rewrite app_nil_r. reflexivity. }
+        pose proof (G1b_failed_tail bt st st1 g [] (resume st0) H2 C Hf eq_refl) as T. cbn zeta in T.
+        match type of T with context[fst ?x] => destruct x as [s5 o5] end. exact T.
+    + match goal with |- context[reset_sm_state ?s] => set (s2 := s) end.
+      assert (H2 : G1b (s2, gapply g (GRelease (map s_gid [])))).
+      { eapply G1b_view; [| |exact H1]; [reflexivity|]. cbn. rewrite app_nil_r. reflexivity. }
+      pose proof (G1b_failed_tail bt st s2 g [] (resume st0) H2 C Hf eq_refl) as T. cbn zeta in T.
+      match type of T with context[fst ?x] => destruct x as [s5 o5] end. exact T.
+    + assert (H2 : G1b (st1, gapply g (GRelease (map s_gid [])))).
+      { eapply G1b_view; [reflexivity| |exact H1]. cbn. rewrite app_nil_r. reflexivity. }
+      pose proof (G1b_failed_tail bt st st1 g [] (resume st0) H2 C Hf eq_refl) as T. cbn zeta in T.
+      match type of T with context[fst ?x] => destruct x as [s5 o5] end. exact T.
+  - unfold fire_ok. cbn [fst snd]. gn. split; [|exact C].
+    apply G1b_gquiet; [exact I|]. apply (G1b_sm_err st0 g H0 C0 Hf0).
+Qed.
+
+Lemma G1b_fire bt st g it : G1b (st, g) -> connected st = true -> fire_ok st g (fire bt st it).
+Proof.
+  intros H C. unfold fire.
+  destruct it as [| | |smo|e]; try (split; [exact H|exact C]).
+  - destruct (h_bind st) eqn:E; [apply G1b_bind; assumption|split; [exact H|exact C]].
+  - destruct (h_feat st) eqn:E; [apply G1b_features; assumption|split; [exact H|exact C]].
+  - destruct (h_sm st) eqn:E; [apply G1b_handle_sm; assumption|split; [exact H|exact C]].
+Qed.
+
+Lemma G1b_step bt s a : G1b s -> G1b (sys_step bt s a).
+Proof.
+  destruct s as [st g]. intros H.
+  destruct a as [t|sched|it| | |].
+  - apply (G1b_send bt (st, g) t H).
+  - unfold sys_step, step. cbn [fst snd]. pose proof (G1b_write st g sched H) as W. cbn zeta in W.
+    destruct (write_phase st sched) as [[st1 o] sl]. exact W.
+  - unfold sys_step, step. cbn [fst snd]. unfold dispatch. destruct (connected st) eqn:C; [|exact H]. cbn [negb].
+    destruct (G1b_fire bt st g it H C) as (H1 & C1).
+    destruct (fire bt st it) as [st1 o1]. cbn [fst snd] in *.
+    pose proof (G1b_post st1 (gfold g o1) it H1 C1) as H2. cbn zeta in H2.
+    destruct (if sm_enabled st1 then sm_handle st1 it else (st1, [])) as [st2 o2]. cbn [fst snd] in *.
+    rewrite !gfold_app. exact H2.
+  - unfold sys_step, step. cbn [fst snd]. destruct (connected st) eqn:C; [|exact H]. unfold stream_end.
+    assert (H1 : G1b (set_can_resume st false, g)) by (eapply G1b_view; [| |exact H]; reflexivity).
+    pose proof (G1b_disconnect _ _ H1) as H2.
+    destruct (disconnect (set_can_resume st false)) as [st2 o2]. cbn [fst snd] in *. rewrite gfold_cons. exact H2.
+  - unfold sys_step, step. cbn [fst snd]. pose proof (G1b_disconnect _ _ H) as H2.
+    destruct (disconnect st) as [st2 o2]. exact H2.
+  - unfold sys_step, step. cbn [fst snd]. pose proof (G1b_connect _ _ H) as H2.
+    destruct (do_connect st) as [st2 o2]. exact H2.
+Qed.
+
+Lemma G1b_init : G1b sys0.
+Proof.
+  unfold G1b, sys0, flags1, nolib, fresh, conserved_c. cbn. repeat split; try constructor; try discriminate; auto.
+Qed.
+
+Lemma G1b_run bt l s : G1b s -> G1b (sys_run bt s l).
+Proof. revert s; induction l as [|a l IH]; intros s H; [exact H|]. cbn. apply IH, G1b_step, H. Qed.
+
+(* ------------------------------------------------------------------ conservation in the vocabulary of the statement *)
+Lemma conserved_of_c s : conserved_c s -> conserved s.
+Proof.
+  intros Co. unfold conserved. split.
+  - apply (NoDup_count_occ Z.eq_dec). intros x. apply (Co x).
+  - apply (Permutation_count_occ Z.eq_dec). intros x. destruct (Co x) as [Cx _].
+    unfold cnt in Cx. rewrite Cx. rewrite !count_occ_app. lia.
+Qed.
+
+Lemma c04_conserved bt l : conserved (sys_run bt sys0 l).
+Proof. apply conserved_of_c. apply (G1b_run bt l sys0 G1b_init). Qed.
+
+(* only a reconnect discards anything *)
+Definition disc (g : ghost) := (g_disc_fresh g, g_disc_resent g).
+
+Lemma disc_fire bt st g it : disc (gfold g (snd (fire bt st it))) = disc g.
+Proof.
+  unfold fire. destruct it as [| | |smo|e]; try reflexivity.
+  - destruct (h_bind st); [|reflexivity]. unf. repeat (brk; cbn [fst snd] in * ); gn; gsil; reflexivity.
+  - destruct (h_feat st); [|reflexivity]. unf. repeat (brk; cbn [fst snd] in * ); gn; gsil; reflexivity.
+  - destruct (h_sm st); [|reflexivity]. split_smel e; unf.
+    all: repeat (brk; cbn [fst snd] in * ).
+    all: gn; gsil; reflexivity.
+Qed.
+
+Lemma disc_post st g it :
+  disc (gfold (gfold g (mark_in it)) (snd (if sm_enabled st then sm_handle st it else (st, [])))) = disc g.
+Proof.
+  destruct (sm_enabled st);
+    (destruct it as [| | |smo|e]; [| | | |split_smel e]); unf;
+    repeat (brk; cbn [fst snd] in * ); gn; gsil; cbn; try reflexivity; destruct (g_active g); reflexivity.
+Qed.
+
+Lemma disc_disconnect st g : disc (gfold g (snd (disconnect st))) = disc g.
+Proof. unfold disconnect. destruct (negb (connected st)); reflexivity. Qed.
+
+Lemma disc_step bt s a :
+  disc (snd (sys_step bt s a)) =
+    match a with
+    | AConnect => if connected (fst s) then disc (snd s)
+                  else (g_disc_fresh (snd s) ++ map q_gid (filter (fun e => negb (q_resend e)) (sq_countable (fst s))),
+                        g_disc_resent (snd s) ++ map q_gid (filter q_resend (sq_countable (fst s))))
+    | _ => disc (snd s)
+    end.
+Proof.
+  destruct s as [st g]. unfold sys_step, step. cbn [fst snd].
+  destruct a as [t|sched|it| | |].
+  - unfold user_send. destruct (connected st && neg_done st); [|reflexivity]. abs_send. cbn [fst snd]. gn. gsil. reflexivity.
+  - unfold write_phase. destruct (connected st); [|reflexivity].
+    destruct (wloop_g1 (sq st) sched st g) as (_ & _ & _ & W4 & W5 & _).
+    destruct (wloop (sq st) sched st) as [[[st1 o] err] sl]. cbn [fst snd] in *.
+    destruct err; cbn [fst snd].
+    + pose proof (disc_disconnect st1 (gfold g o)) as D. destruct (disconnect st1) as [st2 o2]. cbn [fst snd] in *.
+      rewrite gfold_app, D. unfold disc. rewrite W4, W5. reflexivity.
+    + unfold disc. rewrite W4, W5. reflexivity.
+  - unfold dispatch. destruct (negb (connected st)); [reflexivity|].
+    pose proof (disc_fire bt st g it) as D1. destruct (fire bt st it) as [st1 o1]. cbn [fst snd] in *.
+    pose proof (disc_post st1 (gfold g o1) it) as D2.
+    destruct (if sm_enabled st1 then sm_handle st1 it else (st1, [])) as [st2 o2]. cbn [fst snd] in *.
+    rewrite !gfold_app, D2, D1. reflexivity.
+  - destruct (connected st); [|reflexivity]. unfold stream_end.
+    pose proof (disc_disconnect (set_can_resume st false) g) as D.
+    destruct (disconnect (set_can_resume st false)) as [st2 o2]. cbn [fst snd] in *. rewrite gfold_cons. exact D.
+  - pose proof (disc_disconnect st g) as D. destruct (disconnect st) as [st2 o2]. exact D.
+  - unfold do_connect. destruct (connected st); reflexivity.
+Qed.
+
+(* outside the known class nothing that had been written before is ever discarded *)
+Lemma c04_known_class bt l s :
+  known_C04_resend_lost bt s l = false -> g_disc_resent (snd (sys_run bt s l)) = g_disc_resent (snd s).
+Proof.
+  revert s; induction l as [|a l IH]; intros s K; [reflexivity|].
+  cbn in K. apply orb_false_iff in K as [K1 K2]. cbn [sys_run]. rewrite (IH _ K2).
+  pose proof (disc_step bt s a) as D. unfold disc in D.
+  destruct a; try (inversion D; reflexivity).
+  unfold reconnect_drops_resent in K1. destruct (connected (fst s)); [inversion D; reflexivity|].
+  cbn [negb andb] in K1. inversion D as [[D1 D2]]. rewrite D2.
+  assert (E : filter q_resend (sq_countable (fst s)) = []).
+  { unfold sq_countable. induction (sq (fst s)) as [|e q IHq]; [reflexivity|].
+    cbn in K1 |- *. apply orb_false_iff in K1 as [K3 K4]. destruct (countable (q_owner e)); cbn in *.
+    - rewrite K3. apply IHq, K4.
+    - apply IHq, K4. }
+  rewrite E. cbn. apply app_nil_r.
+Qed.
